@@ -62,6 +62,13 @@ func newTokenizer(kind string) tokzr {
 			}
 		}
 		return t
+	case kind == "P":
+		// the generic tokenizer with the library's C++ comment state (// … and /* … */) plugged in for '/'
+		t := generic.NewGenericTokenizer()
+		cs := generic.NewCppCommentState()
+		t.SetCommentState(cs)
+		t.SetCharacterState('/', '/', cs)
+		return t
 	case kind == "h" || kind == "H":
 		// a user number state plugged in through the public extension points: 0x… literals come out with the public
 		// HexDecimal token type, everything else is left to the stock number state (h generic, H expression tokenizer)
